@@ -29,6 +29,11 @@ fn cust(k: u32, x: f32) -> f32 {
         1 => 1.0 - (1.0 - x) * (1.0 - x),
         2 => x * 0.5 + 0.25,
         4 => 1.0 / (x - 0.5),            // a pole at x = 0.5: the easing's own output is ±inf there and huge next to it
+        // a *parameterised* easing (a struct with a field, not a zero-sized type): x, x², x³.  Boxes of these have addresses
+        // that are handed out again after a drop, and one vtable for all exponents
+        11 => x,
+        12 => x * x,
+        13 => x * x * x,
         _ => CubicBezierEasing::new(0.3, 0.1, 0.6, 0.9).calc(x),
     }
 }
@@ -37,13 +42,14 @@ impl EasingFunction for C1 { fn calc(&self, x: f32) -> f32 { cust(1, x) } }
 impl EasingFunction for C2 { fn calc(&self, x: f32) -> f32 { cust(2, x) } }
 impl EasingFunction for C3 { fn calc(&self, x: f32) -> f32 { cust(3, x) } }
 impl EasingFunction for C4 { fn calc(&self, x: f32) -> f32 { cust(4, x) } }
-#[derive(Clone, Debug)]
+#[derive(Clone)]
 pub struct Cust(pub u32);
+impl std::fmt::Debug for Cust { fn fmt(&self, f: &mut std::fmt::Formatter<'_>) -> std::fmt::Result { write!(f, "CustomEasing") } }
 impl EasingFunction for Cust {
     fn calc(&self, x: f32) -> f32 { cust(self.0, x) }
 }
 pub fn custom_easing(k: u32) -> Easing {
-    match k { 0 => Easing::Custom(Box::new(C0)), 1 => Easing::Custom(Box::new(C1)), 2 => Easing::Custom(Box::new(C2)), 4 => Easing::Custom(Box::new(C4)), _ => Easing::Custom(Box::new(C3)) }
+    match k { 0 => Easing::Custom(Box::new(C0)), 1 => Easing::Custom(Box::new(C1)), 2 => Easing::Custom(Box::new(C2)), 4 => Easing::Custom(Box::new(C4)), 11..=13 => Easing::Custom(Box::new(Cust(k))), _ => Easing::Custom(Box::new(C3)) }
 }
 
 pub const EASING_NAMES: [&str; 29] = [
@@ -242,6 +248,10 @@ impl<S: ShapeOps> AnySession for Sess<S> {
                     Some(Slot::Mg2(m)) => { m.start_with(&vs); "ok".into() }
                     _ => "bad-slot".into(),
                 }
+            }
+            "drop" => {
+                // the object in the slot is dropped now (its allocations go back to the allocator before anything else is built)
+                match self.slots.remove(&w[1].parse().unwrap()) { Some(_) => "ok".into(), None => "bad-slot".into() }
             }
             "clone" => {
                 let c = match self.slots.get(&w[1].parse().unwrap()) {
